@@ -70,6 +70,9 @@ func hostileForms(kind, root string) []string {
 	for _, b := range bases {
 		out = append(out, b, b+frag)
 	}
+	// not external at all, but resolvable only by reading the document again as raw data (an
+	// extension area): the one read this may cause is of the root document's own location
+	out = append(out, "#/x-defs/A")
 	return out
 }
 
@@ -84,6 +87,11 @@ func check(c Case) (o h.Outcome) {
 	} else {
 		rootBytes = c.Doc
 		fs.Files[path.Clean(c.Root)] = rootBytes
+		if c.Entry == "uri-query" {
+			// the document lives at a location with a query string; the same path without it is another location
+			delete(fs.Files, path.Clean(c.Root))
+			fs.Files[path.Clean(c.Root)+"?version=2"] = rootBytes
+		}
 	}
 	ld := openapi3.NewLoader()
 	ld.IsExternalRefsAllowed = c.Allow
@@ -107,6 +115,8 @@ func check(c Case) (o h.Outcome) {
 			_, err = ld.LoadFromDataWithPath(rootBytes, &url.URL{Path: c.Root})
 		case "file":
 			_, err = ld.LoadFromFile(c.Root)
+		case "uri-query":
+			_, err = ld.LoadFromURI(&url.URL{Path: c.Root, RawQuery: "version=2"})
 		default:
 			_, err = ld.LoadFromURI(&url.URL{Path: c.Root})
 		}
@@ -114,6 +124,9 @@ func check(c Case) (o h.Outcome) {
 		return
 	}
 	rootKey := path.Clean(c.Root)
+	if c.Entry == "uri-query" {
+		rootKey += "?version=2"
+	}
 	if !c.Allow {
 		o.Class("off:%s:%s", c.Entry, formClass(c.Form))
 		o.Class("off:position:%s", c.PosKind)
@@ -178,6 +191,8 @@ func check(c Case) (o h.Outcome) {
 
 func formClass(f string) string {
 	switch {
+	case strings.HasPrefix(f, "#"):
+		return "internal-raw"
 	case strings.HasPrefix(f, "http://"), strings.HasPrefix(f, "https://"):
 		return "http"
 	case strings.HasPrefix(f, "//"):
@@ -231,13 +246,20 @@ func setAt(root any, ptr []string, nv any) any {
 func plant(raw M, n metamodel.Node, form string) []byte {
 	d := jv.Clone(raw).(M)
 	setAt(d, n.Ptr, M{"$ref": form})
+	d["x-defs"] = xdefs()
 	b, _ := json.Marshal(d)
 	return b
 }
 
+// xdefs is an extension area holding one object that passes for any kind of component.
+func xdefs() M {
+	return M{"A": M{"type": "string", "description": "d", "name": "a", "in": "query", "schema": M{"type": "string"}, "value": 1.0, "operationId": "x", "scheme": "basic",
+		"content": M{"application/json": M{"schema": M{"type": "string"}}}}}
+}
+
 func posName(n metamodel.Node) string { return strings.TrimPrefix(n.Kind, "Ref:") + "<" + n.Parent }
 
-var entries = []string{"data", "datawithpath", "uri", "file"}
+var entries = []string{"data", "datawithpath", "uri", "file", "uri-query"}
 
 // the last three: characters that mean something in a URL but are ordinary in a file name
 var roots = []string{"/w/api/root.json", "api/root.json", "root.json", "api/ro#ot.json", "api/r%41t.json", "/w/ro?t.json"}
@@ -284,6 +306,7 @@ func gen(t *rapid.T) Case {
 		setAt(d, p.Ptr, M{"$ref": form})
 		c.Form, c.PosKind = form, posName(p)
 	}
+	d["x-defs"] = xdefs()
 	c.Doc, _ = json.Marshal(d)
 	return c
 }
